@@ -100,13 +100,14 @@ impl Sm9EncMasterKey {
         let mut c1 = SM9_POINT_MONT_P1.point_mul(&t);
         c1 = c1.point_add(&self.ppube);
 
+        let q = c1;
         let mut k = vec![];
         loop {
             // A2: rand r in [1, N-1]
             let r = sm9_random_u256(&SM9_N_MINUS_ONE);
 
             // A3: C1 = r * Q
-            c1 = c1.point_mul(&r);
+            c1 = q.point_mul(&r);
             let cbuf = c1.to_bytes_be();
             let cbuf = cbuf.as_slice();
 
